@@ -365,3 +365,96 @@ Proof.
 Qed.
 Lemma pow2_le e K : 0 <= e -> 0 <= K -> e * e <= K * K -> e <= K.
 Proof. intros He HK H. destruct (Rle_dec e K); auto. exfalso. assert (K < e) by lra. nra. Qed.
+
+(* ====================================================================== *)
+(* the normalised loop of power_method_opnorm (with sqrt) and its link to pm_sq *)
+Section PMnorm.
+Variable X : IPS.
+Variable B : X -> X.
+Hypothesis Bhom : forall c x, B (c *' x) = c *' B x.
+
+Definition PMstep := pmn_step X smul inner sqrt B.
+Definition PMloop := pmn_loop X smul inner sqrt B.
+Definition PMrun := pmn_run X smul inner sqrt B.
+
+Lemma sqrt_nsq_sq (y : X) : sqrt (nsq y) * sqrt (nsq y) = nsq y.
+Proof. apply sqrt_sqrt, nsq_pos. Qed.
+
+Lemma normalize_unit (y : X) : sqrt (nsq y) <> 0 -> nsq ((1 / sqrt (nsq y)) *' y) = 1.
+Proof.
+  intros Hn. rewrite nsq_scal. pose proof (sqrt_nsq_sq y) as E.
+  unfold Rdiv. rewrite !Rmult_1_l.
+  replace (/ sqrt (nsq y) * / sqrt (nsq y) * nsq y) with (/ sqrt (nsq y) * / sqrt (nsq y) * (sqrt (nsq y) * sqrt (nsq y)))
+    by (rewrite E; reflexivity).
+  field. exact Hn.
+Qed.
+
+(* invariant |x| = 1; every x_norm is bounded by Kb when |B z|^2 <= Kb^2 |z|^2 *)
+Lemma pm_loop_bounded Kb : 0 <= Kb -> (forall z, nsq (B z) <= Kb * Kb * nsq z) ->
+  forall n x l, nsq x = 1 -> PMloop n x = Some l -> Forall (fun v => 0 <= v <= Kb) l.
+Proof.
+  intros HK HB n; induction n as [|n IH]; intros x l Hx; cbn [PMloop pmn_loop].
+  - intros E; injection E as <-. constructor.
+  - unfold pmn_step. numR. fold (nsq (B x)).
+    destruct (Reqb_spec (sqrt (nsq (B x))) 0) as [|Hn]; [discriminate|].
+    destruct (PMloop n (1 / sqrt (nsq (B x)) *' B x)) as [l'|] eqn:El; [|discriminate].
+    intros E; injection E as <-. constructor.
+    + split; [apply sqrt_pos|].
+      rewrite <- (sqrt_square Kb) by auto. apply sqrt_le_1_alt.
+      specialize (HB x). rewrite Hx in HB. lra.
+    + apply (IH (1 / sqrt (nsq (B x)) *' B x)); auto. apply normalize_unit; auto.
+Qed.
+
+Theorem pm_run_bounded Kb : 0 <= Kb -> (forall z, nsq (B z) <= Kb * Kb * nsq z) ->
+  forall n x0 l, PMrun n x0 = Some l -> Forall (fun v => 0 <= v <= Kb) l.
+Proof.
+  intros HK HB n x0 l. unfold PMrun, pmn_run. numR. fold (nsq x0).
+  destruct (Reqb_spec (sqrt (nsq x0)) 0) as [|Hn]; [discriminate|].
+  apply pm_loop_bounded; auto. apply normalize_unit; auto.
+Qed.
+
+(* link with the un-normalised executable model: started from y/|y|, the k-th value of
+   x_norm satisfies  x_norm^2 = |B^(k+1) y|^2 / |B^k y|^2 = pm_sq B k y *)
+Lemma pm_loop_ratio n : forall (y : X) l, sqrt (nsq y) <> 0 ->
+  PMloop n ((1 / sqrt (nsq y)) *' y) = Some l ->
+  Forall2 (fun v k => pm_sq X inner B k y = Some (v * v)) l (seq 0 n).
+Proof.
+  induction n as [|n IH]; intros y l Hy; cbn [PMloop pmn_loop].
+  - intros E; injection E as <-. constructor.
+  - unfold pmn_step. numR. rewrite Bhom. fold (nsq ((1 / sqrt (nsq y)) *' B y)). rewrite nsq_scal.
+    set (sy := sqrt (nsq y)) in *. set (sb := sqrt (nsq (B y))).
+    assert (Hsy : 0 < sy) by (pose proof (sqrt_pos (nsq y)); fold sy in H; lra).
+    assert (Esy : sy * sy = nsq y) by apply sqrt_nsq_sq.
+    assert (Esb : sb * sb = nsq (B y)) by apply sqrt_nsq_sq.
+    assert (Hsb0 : 0 <= sb) by apply sqrt_pos.
+    assert (Enrm : sqrt (1 / sy * (1 / sy) * nsq (B y)) = sb / sy).
+    { rewrite <- Esb.
+      replace (1 / sy * (1 / sy) * (sb * sb)) with ((sb / sy) * (sb / sy)) by (field; lra).
+      apply sqrt_square. apply Rmult_le_pos; auto. left. apply Rinv_0_lt_compat; auto. }
+    rewrite Enrm.
+    destruct (Reqb_spec (sb / sy) 0) as [|Hn]; [discriminate|].
+    assert (Hsb : sb <> 0).
+    { intro E0. apply Hn. rewrite E0. unfold Rdiv. ring. }
+    assert (Ex' : 1 / (sb / sy) *' (1 / sy *' B y) = (1 / sb) *' B y).
+    { rewrite smul_smul. f_equal. field. split; lra. }
+    rewrite Ex'. fold sb.
+    destruct (PMloop n (1 / sb *' B y)) as [l'|] eqn:El; [|discriminate].
+    intros E; injection E as <-.
+    cbn [seq]. constructor.
+    + unfold pm_sq. cbn [iter]. numR. fold (nsq y) (nsq (B y)).
+      destruct (Reqb_spec (nsq y) 0) as [E0|_]; [rewrite <- Esy in E0; nra|].
+      f_equal. rewrite <- Esy, <- Esb. field. lra.
+    + pose proof (IH (B y) l' Hsb El) as F.
+      rewrite <- seq_shift. clear - F.
+      induction F as [|v k l ks Hv F IHF]; cbn [map]; constructor; auto.
+Qed.
+
+Theorem pm_run_ratio n x0 l : PMrun n x0 = Some l ->
+  Forall2 (fun v k => pm_sq X inner B k x0 = Some (v * v)) l (seq 0 n).
+Proof.
+  unfold PMrun, pmn_run. numR. fold (nsq x0).
+  destruct (Reqb_spec (sqrt (nsq x0)) 0) as [|Hn]; [discriminate|].
+  apply pm_loop_ratio; auto.
+Qed.
+End PMnorm.
+
